@@ -77,7 +77,7 @@ class Liar:
         return iter(self.xs)
 
 
-VEC_KINDS = ["bool", "int", "float", "complex", "str", "bytes", "date", "datetime", "object"]
+VEC_KINDS = ["bool", "int", "float", "complex", "str", "bytes", "date", "datetime", "object", "tuple"]
 LADDER_UP = {"bool": ["int", "float", "complex"], "int": ["float", "complex"], "float": ["complex"], "date": ["datetime"]}
 LADDER_DOWN = {"int": ["bool"], "float": ["int", "bool"], "complex": ["float", "int", "bool"], "datetime": ["date"]}
 
@@ -90,6 +90,10 @@ def assign_case(draw, tier="quick"):
         vals = draw(V.mixed_column(min_size=n, max_size=n))
     else:
         vals = draw(V.column(kind=kind, min_size=n, max_size=n, elements=_small(kind)))[1]
+    if kind in ("int", "float") and n and draw(st.integers(0, 5)) == 0:
+        # a column that still holds an element of a lower rung (Vector([1, True, 3]) is an int vector): promotion converts it too
+        vals = list(vals)
+        vals[draw(st.integers(0, n - 1))] = draw(st.booleans()) if kind == "int" else draw(st.integers(-3, 3))
     if kind == "int" and n and draw(st.integers(0, 7)) == 0:
         # an int no float can hold: a promoting assignment cannot convert it (OverflowError in Python) and has to fail cleanly
         vals = list(vals)
@@ -131,6 +135,8 @@ def assign_case(draw, tier="quick"):
                                "boom_iter", "boom_len", "liar"]))
     if kf == "int":
         vf = draw(st.sampled_from(["scalar", "scalar", "str"]))
+    elif kind == "tuple" and vf == "scalar":
+        vf = "tuple"          # a cell of this column is itself a sequence: for a non-integer key a tuple value means "these cells"
     ln = m
     if vf in ("list", "tuple", "vector", "gen") and draw(st.integers(0, 5)) == 0:
         ln = max(0, m + draw(st.sampled_from([-1, 1])))
@@ -195,6 +201,7 @@ def _small(kind):
         "bytes": st.sampled_from([b"a", b"", b"xy"]), "date": st.sampled_from([date(2020, 1, 1), date(2021, 5, 6)]),
         "datetime": st.sampled_from([datetime(2020, 1, 1, 0, 0), datetime(2021, 5, 6, 7, 8)]),
         "object": st.one_of(st.integers(-3, 3), st.sampled_from(["s", 1.5, True, date(2020, 1, 1), b"b"]), V.opaque_a, V.decimals),
+        "tuple": st.sampled_from([(1, 2), (0,), (3, 4, 5), (), (9, 9)]),
     }[kind]
 
 
